@@ -94,6 +94,7 @@ enum Unit {
     Bytes { alphabet: Vec<u8>, prefix: Vec<u8> },
     Numeric(String),
     Corrupt(Vec<u8>),
+    Table(String),
     Deep { open: String, close: String, depth: usize, closed: bool, widths: Vec<usize> },
 }
 struct S {
@@ -144,6 +145,13 @@ impl Scope for S {
                 }
             }
             Unit::Numeric(doc) => sweep(doc.as_bytes(), 1, &WIDTHS, cx),
+            Unit::Table(doc) => {
+                for w in [1usize, 2, 3, 4, 6, 9] {
+                    for cfg in [Cfg::plain(), Cfg::plain().with(Opt::Overflow), Cfg::rich().with(Opt::NoBorders), Cfg::trivial().with(Opt::MinWrap(1))] {
+                        check_one(doc.as_bytes(), w, &cfg, false, cx);
+                    }
+                }
+            }
             Unit::Corrupt(doc) => {
                 for w in [1usize, 4, usize::MAX] {
                     check_one(doc, w, &Cfg::plain(), false, cx);
@@ -179,7 +187,7 @@ impl Scope for S {
     fn info(&self) -> Info {
         let count = |f: &dyn Fn(&Unit) -> bool| self.units.iter().filter(|u| f(u)).count();
         Info {
-            rule: "A token soup: every sequence of <= 2 items over the 84-token markup alphabet (deviation <= 2 for single tokens, <= 1 for pairs) and of 3 (thorough: 4) items over the 26-token alphabet; B raw bytes: all strings of length <= 2 over all 256 byte values, 3 over 24, 4 over 12, <= 6 over 6; C numeric attributes: colspan/start from 18 extreme or malformed values on 5 table/list shapes; D every single-byte edit of the small documents and seeds; E deep nesting of 20 elements and 6 element cycles, closed and unclosed; x widths {0,1,2,3,5,8,9,17,40,200,1e5,usize::MAX} x {plain, plain_no_decorate, rich, trivial, custom ASCII} x deviation-bounded configurations; non-trivial = the input was rendered (Ok)".into(),
+            rule: "A token soup: every sequence of <= 2 items over the 84-token markup alphabet (deviation <= 2 for single tokens, <= 1 for pairs) and of 3 (thorough: 4) items over the 26-token alphabet; B raw bytes: all strings of length <= 2 over all 256 byte values, 3 over 24, 4 over 12, <= 6 over 6; C numeric attributes: colspan/start from 18 extreme or malformed values on 5 table/list shapes; D every single-byte edit of the small documents and seeds; E deep nesting of 20 elements and 6 element cycles, closed and unclosed; F a slice of the regular-table universe at widths 1..9; x widths {0,1,2,3,5,8,9,17,40,200,1e5,usize::MAX} x {plain, plain_no_decorate, rich, trivial, custom ASCII} x deviation-bounded configurations; non-trivial = the input was rendered (Ok)".into(),
             bounds: json!({"soup_units": count(&|u| matches!(u, Unit::Soup{..})), "byte_units": count(&|u| matches!(u, Unit::Bytes{..})), "numeric_documents": count(&|u| matches!(u, Unit::Numeric(_))), "corrupted_documents": count(&|u| matches!(u, Unit::Corrupt(_))), "deep_nesting_cases": count(&|u| matches!(u, Unit::Deep{..})),
                 "widths": WIDTHS.iter().map(|w| w.to_string()).collect::<Vec<_>>(), "deep_nesting_depths": self.tier.pick(vec![1000, 10000], vec![1000, 10000, 100000]), "tier": self.tier.name()}),
             assumptions: vec!["'never hangs' is decided up to the watchdog (20 s per call; 60 s + 10 s x (depth/1e4)^2 for deep nesting)".into(), "stack safety is checked for the default 8 MiB main-thread stack of the worker processes".into(), "pad_block_width only with widths <= 1e5, as the property states".into()],
@@ -272,6 +280,10 @@ impl Prop for P {
                     }));
                 }
             }
+        }
+        // F: regular tables (colspans, empty columns) at the narrowest widths
+        for t in table_slice(tier.pick(400, 4000)) {
+            units.push(Unit::Table(t));
         }
         // D
         let g = G { tables: true, pre: true, valid_only: false };
